@@ -552,7 +552,7 @@ def _gen_c18(rng, tier, i):
         if len(chs) == 2 and rng.random() < 0.3:
             chs = [",".join(chs)]
     plan = {"engine": "lssim", "tree": entries, "recs": recs, "cmd": cmd, "flags": flags, "chs": chs,
-            "src_alias": rng.random() < 0.25,
+            "src_alias": rng.random() < 0.25, "pre_dest": rng.randrange(2) if rng.random() < 0.2 else None,
             "timeform": rng.choice(["z", "z", "naive", "+0530", "-0800", "unix"]), "end_relative": rng.random() < 0.2,
             "only": rng.random() < 0.2, "reverse": rng.random() < 0.3, "symbolic": cmd == "ln" and rng.random() < 0.5,
             "start": None, "end": None, "readdir_seed": rng.randrange(2**32)}
@@ -656,6 +656,20 @@ def _run_c18(plan, res, sc):
                 os.symlink(src, src_arg)
         args = _args_for(plan, src_arg, dest)
         res.trace.add(" ".join(a.replace(sc, "") for a in args))
+        planted = []
+        if plan.get("pre_dest") is not None:
+            # the destination is not empty: an earlier transfer left (other) files under some of the names
+            import zlib
+
+            for rel in sorted(expected):
+                if (zlib.crc32(rel.encode()) + plan["pre_dest"]) % 2 == 0:
+                    dp_ = os.path.join(dest, rel)
+                    os.makedirs(os.path.dirname(dp_), exist_ok=True)
+                    with open(dp_, "wb") as f_:
+                        f_.write(b"left over from an earlier transfer\n")
+                    planted.append(rel)
+            if planted:
+                res.fault("destination_file_already_exists")
         try:
             drf_command.main(args)
         except SystemExit as e:
@@ -663,6 +677,13 @@ def _run_c18(plan, res, sc):
         except Exception as e:  # noqa
             if any(not os.path.isdir(os.path.join(src, c)) for c in chlist):
                 res.probe("missing_channel_argument")
+                return
+            if planted and plan["cmd"] == "ln" and isinstance(e, FileExistsError):
+                # ln does not replace what is there; reporting the failure is a legitimate outcome (nothing may
+                # have been lost: ln never touches the source)
+                res.probe("ln_refuses_existing_destination")
+                if K.fingerprint(src) != fp_src0:
+                    res.violate("C18", "source_changed", "source changed by a failed ln", cmd="ln")
                 return
             res.violate("C18", "command_raises", "drf %s raised %s: %s" % (" ".join(args[:1] + args[3:]), type(e).__name__, str(e)[:200]),
                         cmd=plan["cmd"])
